@@ -22,6 +22,12 @@ pub const START_NS: u64 = 1_000_000_000_000;
 pub const EVENT_ENTITY: u64 = u64::MAX;
 /// See `State::pick_entity`.
 pub const FAIR_BOUND: u64 = 256;
+/// After this many scheduler steps at one simulated instant while a timer is pending, the clock jumps to
+/// that timer although tasks are still runnable: tasks that busy-wait (async-lock's readers hand the
+/// "no writer" notification round while a writer waits for a sleeping reader) burn real time on a real
+/// machine, so the timer they are waiting for does fire there; in a discrete-event clock that only moves
+/// when nothing is runnable it never would.
+pub const SPIN_BOUND: u64 = 10_000;
 
 /// How the schedule is chosen when decisions are seeded.
 #[derive(Clone, Debug, Serialize, Deserialize, PartialEq)]
@@ -143,6 +149,8 @@ struct ThreadSlot {
 
 struct State {
     now: u64,
+    /// scheduler steps taken since `now` last changed
+    steps_at_now: u64,
     seq: u64,
     next_id: u64,
     runnable: BTreeMap<u64, Runnable>,
@@ -253,6 +261,7 @@ impl World {
             me: me.clone(),
             st: Mutex::new(State {
                 now: START_NS,
+                steps_at_now: 0,
                 seq: 0,
                 next_id: 1,
                 runnable: BTreeMap::new(),
@@ -410,20 +419,39 @@ impl World {
                         Some(ev) => {
                             if ev.at > st.now {
                                 st.now = ev.at;
+                                st.steps_at_now = 0;
                                 crate::sys::SIM_CLOCK_NS.store(st.now, std::sync::atomic::Ordering::SeqCst);
                             }
                             Pick::Event(ev)
                         }
                     }
                 } else {
+                    let mut due = due;
+                    st.steps_at_now += 1;
+                    if !due && st.steps_at_now >= SPIN_BOUND {
+                        if let Some(at) = st.events.peek().map(|e| e.at) {
+                            st.now = at;
+                            st.steps_at_now = 0;
+                            crate::sys::SIM_CLOCK_NS.store(st.now, std::sync::atomic::Ordering::SeqCst);
+                            *st.counters.entry("sched.spin_time_jump").or_insert(0) += 1;
+                            st.log_with(|| format!("clock jumps to the next timer after {SPIN_BOUND} steps at one instant (busy-waiting tasks)"));
+                            due = true;
+                        }
+                    }
+                    // a due timer is subject to the fairness bound like a runnable task
                     if due {
                         ents.push(EVENT_ENTITY);
+                        let step = st.steps;
+                        st.since.entry(EVENT_ENTITY).or_insert(step);
+                    } else {
+                        st.since.remove(&EVENT_ENTITY);
                     }
                     let idx = st.pick_entity(&ents);
                     let id = ents[idx];
                     st.steps += 1;
                     st.last_ran = Some(id);
                     if id == EVENT_ENTITY {
+                        st.since.remove(&EVENT_ENTITY);
                         Pick::Event(st.events.pop().unwrap())
                     } else if let Some(r) = st.runnable.remove(&id) {
                         st.since.remove(&id);
